@@ -172,6 +172,10 @@ def run(chk, prog):
     for a, b in pairs:
         convertible.setdefault(a, set()).add(b)
         convertible.setdefault(b, set()).add(a)
+    # ---- K6: the two directions of a registered conversion are inverse --------------------------
+    from . import c20_conv
+    n6 = c20_conv.rule_K6(chk, u)
+    chk.floor("K6", n6, 4)
     # ---- K3 -----------------------------------------------------------------------------------
     n3 = 0
     seen = set()
